@@ -302,6 +302,15 @@ func c14negCases(st *Stats) []Case {
 		add(true, happy(false, false, false).op(), happy(false, false, false).with("f1", noMech(false)).op())
 		add(insecure, happy(true, false, false).with("f1", noMech(true), "f2", "0000").op())
 	}
+	// the server binds the session under a JID whose local part is spelled differently from the configured one (case
+	// folding, a different resource): the NEXT connection of the same client still authenticates with the configured
+	// local part - the scripted server compares the payload with base64(NUL test NUL secret) on every connection
+	for _, bound := range []string{"TEST@localhost/srv-res", "other@localhost/res", "test@localhost/" + strings.Repeat("r", 40)} {
+		cases = append(cases, Case{ID: fmt.Sprintf("neg%d", n), Variant: []string{"neg", "insecure=true", "sm=false"},
+			Ops: [][]string{happy(false, false, false).with("jid", hx(bound)).op(), happy(false, false, false).op(), happy(false, false, false).op()}})
+		n++
+		st.Inc("session_bound_jid_differs")
+	}
 	// traffic logging on: what reaches the server is still exactly the payload (the stream logger sits between the
 	// transport and the socket - before and after STARTTLS)
 	for _, insecure := range bools {
